@@ -326,7 +326,12 @@ def tokens(decl):
                 out += [("KW", "case"), ("ID", l), ("P", ":")]
             out += arm(a)
         if default is not None:
-            out += [("KW", "default"), ("P", ":")] + arm(default)
+            if default[0] == "falls":
+                for l in default[1]:
+                    out += [("KW", "case"), ("ID", l), ("P", ":")]
+                out += [("KW", "default"), ("P", ":")] + arm(default[2])
+            else:
+                out += [("KW", "default"), ("P", ":")] + arm(default)
         return out + [("P", "}"), ("P", ";")]
     if k == "typedef":
         _, t, name, s = decl
@@ -413,7 +418,7 @@ def matrix():
     specs.append(helpers + "union cell switch (bool k) { case TRUE: plain x; case FALSE: void; };\n")
     specs.append(helpers + "union cell switch (bool k) { case TRUE: void; case FALSE: void; };\n")
     specs.append(helpers + "union cell switch (int k) { case 0: case 1: plain x; case 7: withop y; default: void; };\n")
-    specs.append(helpers + "union cell switch (u32alias k) { case 0: int x; case 0x10: blob y; };\n")
+    specs.append(helpers + "const HX = 0x10;\nunion cell switch (u32alias k) { case 0: int x; case HX: blob y; };\n")
     specs.append(helpers + "union cell switch (color k) { case BLUE: int x; default: withop rest; };\n")
     specs.append(helpers + "union cell switch (int k) { case 4: default: hyper x; };\n")
     # typedefs
@@ -491,10 +496,14 @@ def expected_ast(decls):
                     cases.append({"values": list(labels), "name": arm[2], "value": {"None": ref_bt(arm[1])}})
             dflt = None
             if default is not None:
+                falls = []
+                if default[0] == "falls":
+                    falls = list(default[1])
+                    default = default[2]
                 if default[0] == "void":
-                    voids.append("default")
+                    voids += falls + ["default"]
                 else:
-                    dflt = {"values": ["default"], "name": default[2], "value": {"None": ref_bt(default[1])}}
+                    dflt = {"values": falls + ["default"], "name": default[2], "value": {"None": ref_bt(default[1])}}
             types[name] = {"Union": {"name": name, "cases": cases, "default": dflt, "void_cases": voids,
                                      "switch": {"name": dname, "type": ref_bt(disc)}}}
         elif k == "typedef":
